@@ -33,6 +33,18 @@ type PropClaim struct {
 	Undecided []string `json:"undecided,omitempty"`
 	// Bounded stand-ins and paper steps, reported in evidence
 	Notes []string `json:"notes,omitempty"`
+	// External: proofs discharged by another checker (Lean), run on every check; SpecFunc/SpecText pin the contract-level
+	// definition the external statement mirrors, so that the two cannot drift apart silently
+	External []ExternalProof `json:"external,omitempty"`
+}
+
+type ExternalProof struct {
+	Name     string   `json:"name"`
+	Argv     []string `json:"argv"`
+	SpecFunc string   `json:"spec_func,omitempty"`
+	SpecText string   `json:"spec_text,omitempty"`
+	Mirror   string   `json:"mirror_file,omitempty"`
+	MirrorOf string   `json:"mirror_text,omitempty"`
 }
 
 type KnownFinding struct {
@@ -274,6 +286,48 @@ func runProperty(p *vc.Prog, id string, claims *PropClaim, known []KnownFinding,
 		out.violations = append(out.violations, violation{Func: fn, Obl: r.O.Name, Status: r.R.Status, Output: r.R.Output, Query: r.O.Query(smt.Prelude), Clause: r.O.Clause, SrcLine: r.O.SrcLine,
 			Why: "obligation not discharged (" + r.R.Status + ")"})
 	}
+	// external proofs (Lean)
+	if claims != nil {
+		for _, ep := range claims.External {
+			t0 := time.Now()
+			status, output := "unsat", ""
+			if ep.SpecFunc != "" {
+				pf := p.Pures[ep.SpecFunc]
+				if pf == nil || pf.Body == nil || pf.Body.String() != ep.SpecText {
+					status = "drift"
+					got := "<missing>"
+					if pf != nil && pf.Body != nil {
+						got = pf.Body.String()
+					}
+					output = "the contract-level definition of " + ep.SpecFunc + " is no longer the one the external proof mirrors:\n  now:      " + got + "\n  recorded: " + ep.SpecText
+				}
+			}
+			if status == "unsat" && ep.Mirror != "" {
+				if b, err := os.ReadFile(ep.Mirror); err != nil || !strings.Contains(string(b), ep.MirrorOf) {
+					status, output = "drift", "the external proof file no longer contains the mirrored definition: "+ep.MirrorOf
+				}
+			}
+			if status == "unsat" {
+				cmd := exec.Command(ep.Argv[0], ep.Argv[1:]...)
+				ob, err := cmd.CombinedOutput()
+				if err != nil || len(strings.TrimSpace(string(ob))) > 0 {
+					status, output = "failed", string(ob)
+					if err != nil {
+						output += "\n" + err.Error()
+					}
+				}
+			}
+			o := &vc.Obligation{Name: "external:" + ep.Name, Kind: "lemma", Func: "lemma " + ep.Name, Clause: strings.Join(ep.Argv, " ")}
+			r := oblResult{o, smt.Result{Status: status, Solver: ep.Argv[0], Seconds: time.Since(t0).Seconds(), Output: output}}
+			out.obls = append(out.obls, r)
+			out.lemmas = append(out.lemmas, "external:"+ep.Name)
+			if status == "unsat" {
+				out.byBackend[ep.Argv[0]]++
+			} else {
+				out.violations = append(out.violations, violation{Func: "lemma " + ep.Name, Obl: "external:" + ep.Name, Status: status, Output: output, Why: "external proof not accepted (" + status + ")"})
+			}
+		}
+	}
 	// a function whose every return is unreachable under its assumptions is vacuously verified; this is
 	// only meaningful when all its other obligations passed (a failed obligation is assumed afterwards,
 	// which by itself can make later points unreachable)
@@ -387,6 +441,7 @@ func cmdCheck(args []string) int {
 			if pc != nil {
 				npc.Undecided = pc.Undecided
 				npc.Notes = pc.Notes
+				npc.External = pc.External
 			}
 			set := map[string]bool{}
 			for _, r := range out.obls {
